@@ -68,6 +68,10 @@ def run(ctx):
     from ..rules_flow import ctor_rule, getitem_rule
     ctx.guard(getitem_rule, ctx, "C17.citation-pass.getitem")
     ctx.guard(ctor_rule, ctx, "C17.citation-pass.ctor")
+    # ... and only if every way out of assemble() restores the citations of every input: a record left dereferenced makes
+    # the next assembly it takes part in end with a TypeError (the pattern is matched against a Reference object)
+    r.skip.update({"K16.product", "K16.references-kept"})
+    run_kernels(ctx, ["K16"], "C17")
     # the regex syntax a structure() may use must survive the transcription (no re.error at validation time)
     from ..rules_flow import transcription_rule
     ctx.guard(transcription_rule, ctx, "C17.transcription", True)
